@@ -52,6 +52,8 @@ def spec_long_table():
 
 def run(ctx, rep):
     facts, eff = ctx.facts, ctx.effects
+    from rules import allpanics
+    allpanics.run_scope(ctx, rep, 'C15', 'N2', 'on the name path')
     # ---------------- N1
     vals = validators(facts)
     if not [v for v in vals if v.startswith('fatfs::')]:
